@@ -157,6 +157,50 @@ def overlapping_types(schema, scope):
 
 
 # ---- catalogue V -----------------------------------------------------------------------------------------------------------
+_GOOD_LEAF = {"Int": IntV("1"), "Float": IntV("2"), "String": StrV("s"), "ID": IntV("3"), "Boolean": BoolV(True), "Tag": StrV("t")}
+
+
+def legal_literals(schema, t, depth=0):
+    """a few legal literals for input type t (typeref tuple): [] when none can be built"""
+    from vf.doc import NullV, ListV, ObjV
+    if t[0] == "nn":
+        return [x for x in legal_literals(schema, t[1], depth) if not isinstance(x, NullV)]
+    out = [NullV()]
+    if t[0] == "list":
+        items = legal_literals(schema, t[1], depth + 1)
+        non_null = [x for x in items if not isinstance(x, NullV)]
+        if non_null:
+            g = non_null[0]
+            out += [ListV((g,)), ListV(()), g]            # one item, empty, a single value for the list
+            if any(isinstance(x, NullV) for x in items):
+                out.append(ListV((g, NullV())))          # a null item where items are nullable
+        return out
+    td = schema.type(t[1])
+    if td is None:
+        return []
+    if td.kind == "SCALAR":
+        if t[1] in _GOOD_LEAF:
+            out.append(_GOOD_LEAF[t[1]])
+    elif td.kind == "ENUM":
+        out.append(EnumV(td.values[0].name))
+    elif td.kind == "INPUT_OBJECT" and depth < 2:
+        required = [f for f in td.fields if f.type[0] == "nn" and f.default is None]
+        base = []
+        ok = True
+        for f in required:
+            vals = legal_literals(schema, f.type, depth + 1)
+            if not vals:
+                ok = False
+                break
+            base.append((f.name, vals[0]))
+        if ok:
+            out.append(ObjV(tuple(base)))
+            for f in td.fields:
+                if f not in required and f.type[0] != "nn":
+                    out.append(ObjV(tuple(base) + ((f.name, NullV()),)))
+    return out
+
+
 DEFAULT_KINDS = ("R1", "R2", "R3", "R4", "R5", "R6", "R8", "R9", "R10", "R11", "R13")
 ALL_KINDS = DEFAULT_KINDS + ("R14", "R15", "R16")
 # lighter variants used as *second* rewrite in the quick tiers: R2L (fresh alias, alias = name of a sibling selection),
@@ -247,6 +291,12 @@ def neighbours(schema, document, kinds=None):
                 for dn in ("skip", "include"):
                     for lit in (True, False):
                         yield "R8", put(replace(s, dirs=s.dirs + (Directive(dn, (Arg("if", BoolV(lit)),)),)))
+                # both directives on one node, in both orders: the node is kept only when neither says no
+                for a in (True, False):
+                    for b in (True, False):
+                        sk, inc = Directive("skip", (Arg("if", BoolV(a)),)), Directive("include", (Arg("if", BoolV(b)),))
+                        yield "R8", put(replace(s, dirs=s.dirs + (sk, inc)))
+                        yield "R8", put(replace(s, dirs=s.dirs + (inc, sk)))
                 ops = reaching_ops(document, path[0])
                 if ops:
                     vn = fresh(document, "b")
@@ -272,6 +322,16 @@ def neighbours(schema, document, kinds=None):
                         for oi in ops:
                             defs[oi] = replace(defs[oi], vars=defs[oi].vars + (VarDef(vn, doc.type_to_str(ad.type)),), shorthand=False)
                         yield "R14", replace(d2, defs=tuple(defs))
+            # R17 add an argument with a legal literal: null for nullable types (lists of non-null items included), lists with and without
+            # null items, a single value where a list is declared, input objects with null / omitted fields
+            if want("R17") and isinstance(s, Field) and scope is not None:
+                fd = schema.field_def(scope, s.name)
+                if fd is not None:
+                    for ad in fd.args:
+                        if any(a.name == ad.name for a in s.args):
+                            continue
+                        for lit in legal_literals(schema, ad.type):
+                            yield "R17", put(replace(s, args=s.args + (Arg(ad.name, lit),)))
             # R15 custom directive on this node (no argument / literal / variable)
             if want("R15") and schema.directive("dq") is not None and not any(d.name == "dq" for d in s.dirs):
                 yield "R15", put(replace(s, dirs=s.dirs + (Directive("dq"),)))
